@@ -316,6 +316,13 @@ def build_cases(tier):
             "empty": {"metadata_type": "inject_code"},
             "nameonly": block_md("n4", {}),
         }
+    # three blocks with an identical repeat around (or next to) a different block: the repeated block keeps its FIRST place
+    for k in range(len(FIELDS)):
+        m = menu(k)
+        for combo in (("A", "B", "A_same"), ("A", "A_same", "B"), ("B", "A", "A_same"), ("A", "B", "A_reordered"), ("A", "B", "A_diff")):
+            for pos in ((0, 0, 0), (0, 1, 0), (1, 0, 1)):
+                cases.append((cid, [m[c] for c in combo], pos, "atlas"))
+                cid += 1
     nblk = 2 if tier == "quick" else 3
     keys = list(menu(0).keys())
     for n in range(2, nblk + 1):
